@@ -287,6 +287,43 @@ theorem WFG.removeG {s : V1State} (h : WFG c1 c2 c3 c4 c5 s) (t k : Bytes) :
       tpisKeys := setOpt_keys_nodup _ _ h.tpisKeys }
   exact h
 
+theorem lookupOpt_some {m : List (Bytes × Option Event)} {k : Bytes} {p : Event} (h : lookupOpt m k = some p) :
+    ∃ x ∈ m, x.1 = k ∧ x.2 = some p := by
+  unfold lookupOpt at h
+  obtain ⟨x, hx, hf⟩ := List.exists_of_findSome?_eq_some h
+  by_cases hk : x.1 = k
+  · exact ⟨x, hx, hk, by simpa [hk] using hf⟩
+  · simp [hk] at hf
+
+/-- in a well-formed state an event found under a slot is a state event of exactly that slot -/
+theorem lookupG_some_eff {s : V1State} (h : WFG c1 c2 c3 c4 c5 s) {t k : Bytes} {p : Event}
+    (hl : lookupG c1 c2 c3 c4 c5 s t k = some p) : authEffG c1 c2 c3 c4 c5 p t k := by
+  unfold lookupG at hl
+  unfold authEffG isAuthSlotG
+  split at hl
+  · rename_i ht; split at hl
+    · rename_i hk; obtain ⟨a, b⟩ := h.create p hl; exact ⟨hk ▸ b, ht ▸ a, Or.inl ⟨ht, hk⟩⟩
+    · cases hl
+  split at hl
+  · rename_i ht; split at hl
+    · rename_i hk; obtain ⟨a, b⟩ := h.pl p hl; exact ⟨hk ▸ b, ht ▸ a, Or.inr (Or.inl ⟨ht, hk⟩)⟩
+    · cases hl
+  split at hl
+  · rename_i ht; split at hl
+    · rename_i hk; obtain ⟨a, b⟩ := h.jr p hl; exact ⟨hk ▸ b, ht ▸ a, Or.inr (Or.inr (Or.inl ⟨ht, hk⟩))⟩
+    · cases hl
+  split at hl
+  · rename_i ht
+    obtain ⟨x, hx, hxk, hxp⟩ := lookupOpt_some hl
+    obtain ⟨a, b⟩ := h.members x hx p hxp
+    exact ⟨hxk ▸ b, ht ▸ a, Or.inr (Or.inr (Or.inr (Or.inl ht)))⟩
+  split at hl
+  · rename_i ht
+    obtain ⟨x, hx, hxk, hxp⟩ := lookupOpt_some hl
+    obtain ⟨a, b⟩ := h.tpis x hx p hxp
+    exact ⟨hxk ▸ b, ht ▸ a, Or.inr (Or.inr (Or.inr (Or.inr ht)))⟩
+  cases hl
+
 /-! ## the provider answers the lookup function -/
 
 theorem find_slot {T : Bytes} {o : Option Event} (ho : ∀ e, o = some e → e.type = T ∧ e.stateKey = some []) (t k : Bytes) :
